@@ -142,7 +142,14 @@ def run_sideb(pid, specs, props_filter=None, label='sideB'):
             if cls in cls_seen:
                 continue
             cls_seen.add(cls)
-            props = cls.split(':', 1)[0].split(',') if re.match(r'C\d+', cls) else ['C20']
+            if re.match(r'C\d+', cls):
+                props = cls.split(':', 1)[0].split(',')
+            else:
+                # the generated injector (or the driver) panicked: with a failing provider in the
+                # schedule that is the failure contract (C03), otherwise wiring / cleanup (C02, C04)
+                faulty = any(k.startswith('fault_') and val != 0 for k, val in (v.get('model') or {}).items())
+                props = ['C03'] if faulty else ['C02', 'C04']
+                cls = 'generated injector panicked: ' + v['msg'][:120]
             if sp is not None and sp.naming == 'adversarial' and 'C14' not in props:
                 props = props + ['C14']
             rp = replay_driver(pid, mod, pk, v['model'])
